@@ -149,8 +149,11 @@ def project(e: dict) -> dict:
         return _int_leaf(e["value"])
     if k == "Symbol":
         return _leaf("Symbol", e["name"], d)
-    if k == "MultiIndex":
-        return project(e["global_index"])
+    if k == "MultiIndex":           # one operand node; its meaning (and its printed form) is the flattened index a[0]
+        return {"k": k, "s": "", "d": "INT", "a": [
+            project(e["global_index"]),
+            {"k": "symbols", "s": "", "a": [project(x) for x in e["symbols"]], "d": ""},
+            {"k": "sizes", "s": "", "a": [_int_leaf(n) for n in e["sizes"]], "d": ""}]}
     if k == "ArrayAccess":
         return {"k": k, "s": e["array"], "a": [project(i) for i in e["indices"]], "d": d}
     if k == "MathFunction":
@@ -208,6 +211,8 @@ def literals_in_print_order(t: dict, lang: str):
             yield from t["a"]
         return
     kids = t["a"]
+    if k == "MultiIndex":
+        kids = kids[:1]                  # only the flattened index is printed
     if lang == "Py":
         if k == "Conditional":
             kids = [kids[1], kids[0], kids[2]]
@@ -335,10 +340,9 @@ def build(t: dict, L):
     if k == "Complex":
         re_, im = build(a[0], L).value, build(a[1], L).value
         return L.LiteralFloat(complex(re_, im))
-    if k == "MultiIndex":
-        n = len(a) // 2
-        syms = [build(x, L) for x in a[:n]]
-        return L.MultiIndex(syms, [int(x["s"]) for x in a[n:]])
+    if k == "MultiIndex":           # a = <<reference flattened index, symbols, sizes>>
+        syms = [build(x, L) for x in a[1]["a"]]
+        return L.MultiIndex(syms, [int(x["s"]) for x in a[2]["a"]])
     kids = [build(x, L) for x in a]
     if k in ("Neg", "Not"):
         return getattr(L, k)(kids[0])
@@ -371,6 +375,8 @@ def show(t) -> str:
         return "-" + t["s"]
     if t["k"] == "Symbol":
         return t["s"]
+    if t["k"] == "MultiIndex":
+        return "MultiIndex([" + ", ".join(show(c) for c in t["a"][1]["a"]) + "], [" + ", ".join(show(c) for c in t["a"][2]["a"]) + "])"
     nm = t["k"] + (":" + t["s"] if t["s"] else "")
     return nm + "(" + ", ".join(show(c) for c in t["a"]) + ")"
 
@@ -379,6 +385,10 @@ def same_shape(enumerated, projected) -> bool:
     """Did build() realise the enumerated tree?  (literal ids differ: TLC's are decimal, real ones are hex)"""
     if enumerated["k"] != projected["k"] or len(enumerated["a"]) != len(projected["a"]):
         return False
+    if enumerated["k"] == "MultiIndex":      # same symbols and sizes; the flattened index is lnodes' own (judged by C17)
+        return all(same_shape(x, y) for x, y in zip(enumerated["a"][1:], projected["a"][1:]))
+    if enumerated["k"] in ("IntPos", "IntNeg"):
+        return int(enumerated["s"]) == projected["_v"]
     if enumerated["k"] in ("FloatPos", "FloatNeg"):
         return float(enumerated["s"]) == projected["_v"]
     if enumerated["k"] == "Complex":
@@ -454,6 +464,21 @@ def reason_key(lang, diff) -> str:
     return KEY_ALIASES.get(key, key)
 
 
+def _mi_operand(t, parent=None, site=""):
+    """(parent kind, enclosing array/assigned symbol) of the first MultiIndex that is an operand rather than a whole subscript."""
+    if t["k"] == "MultiIndex":
+        return (parent, site) if parent not in (None, "ArrayAccess") else None
+    if t["k"] in ("ArrayAccess",):
+        site = t["s"]
+    elif t["k"] in ("VariableDecl", "ArrayDecl") and t["a"]:
+        site = t["a"][0]["s"]
+    for c in t["a"]:
+        r = _mi_operand(c, t["k"], site)
+        if r:
+            return r
+    return None
+
+
 def judge(chk, cs: CaseSet, name: str, chunk_tokens=400_000, parallel=3):
     """Run FormatConform over the cases (chunked), report TLC's verdicts; returns number of rejected cases."""
     if not cs.cases:
@@ -492,6 +517,7 @@ def judge(chk, cs: CaseSet, name: str, chunk_tokens=400_000, parallel=3):
         results = list(ex.map(one, enumerate(chunks)))
     rejected = 0
     groups: dict[str, list] = {}
+    by_id0 = {c["id"]: c for c in cs.cases}
     for r in results:
         chk.add(states=r.distinct, transitions=r.generated)
         for v in printed_values(r.out, "VIOL"):
@@ -499,7 +525,11 @@ def judge(chk, cs: CaseSet, name: str, chunk_tokens=400_000, parallel=3):
             for cid in same[rid]:
                 rejected += 1
                 cs.rejected.add(cid)
-                groups.setdefault(reason_key(cs.info[cid]["lang"], diff), []).append((cid, diff))
+                key = reason_key(cs.info[cid]["lang"], diff)
+                mo = _mi_operand(by_id0[cid]["tree"]) if ":tree:" in key else None
+                if mo:      # label only: a structural mismatch of a tree that has a MultiIndex as an arithmetic operand
+                    key = f"{backend_name(cs.info[cid]['lang'])}:MultiIndex:operand-of:{mo[0]}" + ("" if name == "enum" else f":in:{mo[1]}")
+                groups.setdefault(key, []).append((cid, diff))
     by_id = {c["id"]: c for c in cs.cases}
     for key, hits in sorted(groups.items()):
         cid, diff = min(hits, key=lambda h: cs.info[h[0]]["ntok"])
@@ -598,7 +628,7 @@ def run_enumerated(chk, trees, quick: bool):
             node = build(t, L)
             for lang in ("C", "Py"):
                 p = cs.add(lang, st, "expr", node, show(t), fm)
-                if p is not None and not has_kind(t, "MultiIndex") and not same_shape(t, p):
+                if p is not None and not same_shape(t, p):
                     raise MachineryError(f"harness did not realise the enumerated tree {show(t)}")
         if t["a"]:
             nontrivial.add(show(t))
@@ -626,7 +656,8 @@ def run_enumerated(chk, trees, quick: bool):
     chk.add(literal_values=len(vals), distinct_nontrivial=len(nontrivial))
     chk.add(rule="TLC (FormatMC) enumerates the well-typed LNodes trees: every operator shape x operand position x leaf, every "
                  "(parent, position, child) triple [depth 3: every parent/child/grandchild chain], all leaf pairs under the binary "
-                 "arithmetic/comparison nodes, n-ary arity 1-3, conditional nesting, MultiIndex accesses; each is built as a real "
+                 "arithmetic/comparison nodes, n-ary arity 1-3, conditional nesting, every math function, a MultiIndex (1-3 symbols/literal "
+                 "indices) as a direct operand of every operator shape in every position and inside subscripts; each is built as a real "
                  "lnodes object, formatted by the real C formatter (4 scalar types) and numba formatter, tokenised, and TLC "
                  "(FormatConform) parses the tokens and compares with the exported tree. Non-trivial = has at least one operator.")
     chk.add(samples=[{"tree": cs.info[c["id"]]["what"], "lang": c["lang"], "st": c["st"], "text": cs.info[c["id"]]["text"]}
@@ -709,9 +740,62 @@ def expression_interp():
     import numpy as np
     m, V = _space("triangle", deg=2); f = Coefficient(V)
     return [(grad(f) * sin(f), np.array([[0.0, 0.0], [1.0, 0.0], [0.0, 1.0], [0.25, 0.25]]))]
-FORMS = {f.__name__: f for f in [mass_p1_interval, poisson_p2_triangle, vector_tet, conditional_form, math_form, math_complex, dg_facets,
+def _tp(cell, deg, shape=None):
+    import basix
+    ct = {"quadrilateral": basix.CellType.quadrilateral, "hexahedron": basix.CellType.hexahedron}[cell]
+    e = basix.ufl.wrap_element(basix.create_tp_element(basix.ElementFamily.P, ct, deg, basix.LagrangeVariant.gll_warped))
+    return basix.ufl.blocked_element(e, shape=shape) if shape else e
+def _sf(cell, deg, blocked):
+    """Forms for sum-factorised kernels: tensor-product elements, scalar / blocked coefficient."""
+    gd = 2 if cell == "quadrilateral" else 3
+    m = Mesh(_tp(cell, 1, (gd,))); V = FunctionSpace(m, _tp(cell, deg)); W = FunctionSpace(m, _tp(cell, deg, (gd,)))
+    f = Coefficient(V); g = Coefficient(W)
+    if blocked:
+        u, v = TrialFunction(W), TestFunction(W)
+        return [inner(g, g) * inner(u, v) * dx + f * inner(grad(u), grad(v)) * dx, inner(g, v) * dx + f * inner(g, v) * dx]
+    u, v = TrialFunction(V), TestFunction(V)
+    return [f * inner(u, v) * dx + inner(grad(u), grad(v)) * dx, inner(f, v) * dx, f * f * dx]
+def _mk_sf(cell, deg, blocked):
+    def fn():
+        return _sf(cell, deg, blocked)
+    fn.__name__ = f"sf_{cell}_{deg}_{'blocked' if blocked else 'scalar'}"
+    return fn
+SF = [_mk_sf(c, d, b) for c in ("quadrilateral", "hexahedron") for d in (1, 2) for b in (False, True)]
+def multi_rule():
+    m, V = _space("triangle", deg=2); u, v = TrialFunction(V), TestFunction(V); f = Coefficient(V)
+    return [inner(u, v) * dx(degree=1) + f * inner(grad(u), grad(v)) * dx(degree=3) + inner(u, v) * dx(scheme="vertex", degree=1)
+            + f * inner(u, v) * ds(degree=1) + inner(u, v) * ds(degree=4)]
+def dg0_real_tables():
+    m = _mesh("triangle"); V = FunctionSpace(m, basix.ufl.element("Lagrange", "triangle", 1))
+    D = FunctionSpace(m, basix.ufl.element("Discontinuous Lagrange", "triangle", 0)); Q = FunctionSpace(m, basix.ufl.quadrature_element("triangle", degree=2))
+    u, v = TrialFunction(V), TestFunction(V); k = Coefficient(D); q = Coefficient(Q); c = Constant(m); t = Constant(m, shape=(2, 2))
+    return [k * q * inner(u, v) * dx(degree=2) + c * inner(dot(t, grad(u)), grad(v)) * dx, k * inner(c, v) * dx]
+def facet_coeff_dS():
+    m, V = _space("triangle", "Discontinuous Lagrange", 2); u, v = TrialFunction(V), TestFunction(V); f = Coefficient(V)
+    n = FacetNormal(m)
+    return [avg(f) * inner(jump(u), jump(v)) * dS + f("+") * inner(dot(grad(u)("-"), n("+")), v("+")) * dS,
+            inner(f, v) * ds + avg(f) * inner(f("-"), v("+")) * dS]
+def geometry_quantities():
+    m, V = _space("tetrahedron", deg=1); v = TestFunction(V); x = SpatialCoordinate(m); n = FacetNormal(m)
+    return [inner(CellVolume(m) + Circumradius(m) + x[0] * x[2], v) * dx,
+            inner(FacetArea(m) * MinFacetEdgeLength(m) + MaxFacetEdgeLength(m) * n[1] + CellDiameter(m), v) * ds]
+def manifold_mass():
+    m = Mesh(basix.ufl.element("Lagrange", "triangle", 1, shape=(3,))); V = FunctionSpace(m, basix.ufl.element("Lagrange", "triangle", 1))
+    u, v = TrialFunction(V), TestFunction(V); return [inner(grad(u), grad(v)) * dx + inner(u, v) * ds]
+def quad_nonaffine_piola():
+    m, V = _space("quadrilateral", "RTCF", 1); u, v = TrialFunction(V), TestFunction(V)
+    return [inner(u, v) * dx + div(u) * div(v) * dx]
+def expr_facet_points():
+    import numpy as np
+    m, V = _space("triangle", deg=2); f = Coefficient(V); x = SpatialCoordinate(m); W = FunctionSpace(m, basix.ufl.element("Lagrange", "triangle", 1, shape=(2,)))
+    g = Coefficient(W)
+    return [(f * grad(f) + x, np.array([[0.0], [0.5], [1.0]])), (dot(g, g) * g + grad(f), np.array([[0.25], [0.75]])),
+            (f * TrialFunction(V), np.array([[0.0, 0.0], [0.5, 0.5]]))]
+FORMS = {f.__name__: f for f in SF + [multi_rule, dg0_real_tables, facet_coeff_dS, geometry_quantities, manifold_mass,
+                                      quad_nonaffine_piola, expr_facet_points]}
+FORMS.update({f.__name__: f for f in [mass_p1_interval, poisson_p2_triangle, vector_tet, conditional_form, math_form, math_complex, dg_facets,
                                  stokes_th, quad_mass_gll, tp_sumfact, hex_nonlinear, hcurl_mass, complex_sesq, vertex_and_custom,
-                                 expression_interp]}
+                                 expression_interp]})
 '''
 COMPLEX_ONLY = {"complex_sesq", "math_complex"}
 REAL_ONLY = {"math_form", "conditional_form"}
@@ -796,6 +880,12 @@ def gen_main(jobfile: str, outfile: str):
         try:
             if job["kind"] == "form":
                 objs = ns["FORMS"][job["name"]]()
+            elif job["kind"] == "kcorpus":
+                from . import kcorpus  # noqa: PLC0415
+
+                objs, kopts = kcorpus.build(job["name"])
+                job = {**job, "opts": {**{k: v for k, v in kopts.items() if k != "scalar_type"}, **(job.get("opts") or {})}}
+                st = str(kopts.get("scalar_type", st))
             else:
                 import ufl  # noqa: PLC0415
 
@@ -859,9 +949,27 @@ def run_corpus(chk, quick: bool):
             sts = ["float64"]
         for st in sts:
             jobs.append({"kind": "form", "name": name, "st": st})
+    # option / feature combinations that select other code paths of definitions.py, access.py and the two generators:
+    # sum-factorised kernels (tensor-product elements, scalar and blocked coefficients, degree 1-2, quadrilateral and
+    # hexahedron), part="diagonal", several quadrature rules in one kernel, expressions at facet points, DG0 / quadrature /
+    # constant tables, interior facets with coefficients, geometry quantities, manifolds, Piola-mapped elements
+    SFO = {"sum_factorization": True}
+    sf_all = [f"sf_{c}_{d}_{b}" for c in ("quadrilateral", "hexahedron") for d in (1, 2) for b in ("scalar", "blocked")]
+    sf_quick = ["sf_quadrilateral_1_scalar", "sf_quadrilateral_2_blocked", "sf_hexahedron_1_blocked", "sf_hexahedron_1_scalar"]
+    feature = ["multi_rule", "dg0_real_tables", "facet_coeff_dS", "geometry_quantities", "manifold_mass", "quad_nonaffine_piola",
+               "expr_facet_points"]
     if quick:
         jobs.append({"kind": "form", "name": "poisson_p2_triangle", "st": "float32"})
-        jobs.append({"kind": "form", "name": "tp_sumfact", "st": "float64", "opts": {"sum_factorization": True}})
+        for i, n in enumerate(sf_quick):
+            jobs.append({"kind": "form", "name": n, "st": ["float64", "complex128", "float32", "float64"][i], "opts": SFO})
+        jobs.append({"kind": "form", "name": "sf_quadrilateral_1_blocked", "st": "float64", "opts": {**SFO, "part": "diagonal"}})
+        jobs.append({"kind": "form", "name": "sf_quadrilateral_2_scalar", "st": "float64"})
+        jobs.append({"kind": "form", "name": "poisson_p2_triangle", "st": "float64", "opts": {"part": "diagonal"}})
+        jobs.append({"kind": "form", "name": "stokes_th", "st": "float64", "opts": {"part": "diagonal"}})
+        for n in feature:
+            jobs.append({"kind": "form", "name": n, "st": "float64"})
+        jobs.append({"kind": "form", "name": "facet_coeff_dS", "st": "complex128"})
+        jobs.append({"kind": "form", "name": "expr_facet_points", "st": "complex64"})
     else:
         for f in sorted((REPO / "demo").glob("*.py")):
             if f.name.startswith("test_"):
@@ -873,8 +981,23 @@ def run_corpus(chk, quick: bool):
                 if st in ("float32", "complex64") and not half:
                     continue
                 jobs.append({"kind": "demo", "name": str(f), "st": st})
-        for st in ("float64", "float32"):
-            jobs.append({"kind": "form", "name": "tp_sumfact", "st": st, "opts": {"sum_factorization": True}})
+        for n in sf_all:
+            for st in SCALAR_TYPES:
+                jobs.append({"kind": "form", "name": n, "st": st, "opts": SFO})
+            jobs.append({"kind": "form", "name": n, "st": "float64", "opts": {**SFO, "part": "diagonal"}})
+            jobs.append({"kind": "form", "name": n, "st": "float64"})
+        for n in ("poisson_p2_triangle", "stokes_th", "vector_tet", "dg_facets", "hcurl_mass"):
+            jobs.append({"kind": "form", "name": n, "st": "float64", "opts": {"part": "diagonal"}})
+        for n in feature:
+            for st in SCALAR_TYPES:
+                jobs.append({"kind": "form", "name": n, "st": st})
+        try:                                  # the kernel corpus of engine S4, when present (read-only use)
+            from . import kcorpus  # noqa: PLC0415
+
+            for n in kcorpus.names("thorough"):
+                jobs.append({"kind": "kcorpus", "name": n, "st": "float64"})
+        except Exception as ex:  # noqa: BLE001
+            chk.note(f"S4 kernel corpus not used: {type(ex).__name__}: {ex}")
     rng = random.Random(chk.seed)
     rng.shuffle(jobs)
     nproc = 4
@@ -1009,8 +1132,8 @@ def run_c16(chk):
         "tokenisers (harness/ctoken.py, pytoken.py) implement maximal munch of C11 6.4 / Python ch.2 for the emitted character set",
         "literal clause (|printed - tree| <= 1 ulp in the kernel's real type) is decided in Python with exact Fractions; "
         "TLC judges structure with number tokens named by the literal leaf printed at that place",
-        "astexport/project are mechanical re-shapings of the real LNodes objects; a MultiIndex stands for its global_index "
-        "(whose value is checked by C17)",
+        "astexport/project are mechanical re-shapings of the real LNodes objects; a MultiIndex is one operand node whose meaning is "
+        "its flattened index global_index (whose value is checked by C17)",
         "math-function names are accepted per C11 7.12/7.3 family (any precision suffix) / numpy-math-scipy synonyms listed in Format.tla",
     ]
 
